@@ -12,7 +12,7 @@ RULE = ("Generated: DensityMatrix with num_visible 1..4 x num_hidden 1..4 x num_
         "Oracle: rho = Psi Psi^dagger with the purified amplitude Psi(sigma,a) enumerated over all 2^nh hidden and 2^na "
         "auxiliary configurations (partial trace by matrix product). Non-trivial = amplitude aux bias non-zero, weights_U of "
         "both networks non-zero, and some off-diagonal entry with |Im| > 1e-6*sqrt(rho_ii rho_jj).")
-RULE_EXT = ('Extended as built: n 5..8 in 1/16 of cases; phase auxiliary bias non-zero in 1/5 of cases; every evaluation repeated after a second object was evaluated and along the in-place history A -> B -> A; importance_sampling_* and compute_normalization compared with the same reference.')
+RULE_EXT = ('Extended as built: n 5..8 in 1/16 of cases; phase auxiliary bias non-zero in 1/5 of cases; every evaluation repeated after a second object was evaluated and along the in-place history A -> B -> A; importance_sampling_* and compute_normalization compared with the same reference. Rounds 5-6: num_aux = 0 (1 in 12 cases); sparse single-entry-point histories; ownership of results for every rho call form, probability and normalization.')
 RULE = RULE + " " + RULE_EXT
 ASSUMPTIONS = ["CPU only", "parameters rescaled so |log weight| <= 300",
                "entry tolerance 1e-6*sqrt(rho_ii*rho_jj); PSD checked on the unit-diagonal congruence D^-1/2 rho D^-1/2 with eigenvalues >= -1e-7"]
@@ -101,6 +101,9 @@ def sparse_history(case):
                     worst=float((got - w).abs().max()), scale=sc_)
 
 
+_OWNED = set()
+
+
 def check_round(case, state):
     n = case["n"]
     D = 2 ** n
@@ -166,6 +169,26 @@ def check_round(case, state):
     require(bool(torch.all((wgt - rho[i2, i1] / dlib[i1]).abs() <= 1e-6 * scale[i2, i1] / dlib[i1] + 1e-300)), "importance-sampling:weight",
             "importance_sampling_weight(sigma', sigma) is not rho(sigma', sigma) / rho(sigma, sigma)")
     require(abs(float(state.compute_normalization(space)) - Z) <= 1e-12 * abs(Z), "alias:compute_normalization", "compute_normalization() differs from normalization()")
+    # results belong to the caller: a held result survives later calls of the same shape, and editing a result in place does not leak
+    first_round = id(state) not in _OWNED
+    _OWNED.clear()
+    _OWNED.add(id(state))
+    calls = {} if not first_round else {"rho(space,space)": lambda: state.rho(space, space), "rho(v,vp,expand=False)": lambda: state.rho(v, vp, expand=False),
+             "rho(vp,v,expand=False)": lambda: state.rho(vp, v, expand=False), "rho(v, sub)": lambda: state.rho(v, space[i3]),
+             "rho(single)": lambda: state.rho(space[i1[0]], space[i2[0]]), "probability": lambda: state.probability(space),
+             "normalization": lambda: state.normalization(space)}
+    held = []
+    for name, fn in calls.items():
+        first = fn()
+        held.append((name, first, first.detach().clone()))
+    for name, fn in calls.items():
+        second = fn()
+        second.mul_(0.5)
+        for hn, ht, hv in held:
+            require(torch.equal(ht, hv), "ownership:earlier-result-changed", f"the tensor returned earlier by {hn} changed after a later call / in-place edit of the result of {name}")
+        third = fn()
+        want = next(hv for hn, ht, hv in held if hn == name)
+        require(torch.equal(third, want), "ownership:result-edit-leaks", f"editing the tensor returned by {name} in place changed what the same call returns afterwards")
     offd = rho - torch.diag(rho.diagonal())
     nt = bool((offd.imag.abs() > 1e-6 * scale).any())
     return {"nontrivial": nt}
